@@ -24,7 +24,7 @@ HL2PI = math.log(math.sqrt(2 * math.pi))
 OBJECTIVES = ["ELBO", "ELBO-entropy", "VR", "CUBO", "KLpq"]
 # pairs whose q can also be handed over as a bare Distribution (no JointDistributionModel)
 REGULAR = ["ge", "gp", "nn", "bb", "ge_exp", "bb_sig", "nn_aff", "lnn_exp", "two"]
-BARE_OK = {"ge", "gp", "nn", "bb", "nn_aff", "lnn_exp", "ge_vec", "ge_list", "mvn", "mvn_full"}
+BARE_OK = {"ge", "gp", "nn", "bb", "nn_aff", "lnn_exp", "ge_vec", "ge_list", "mvn", "mvn_full", "cse"}
 NO_ENTROPY = {"ge_exp", "bb_sig"}     # q = density(z(u)) + Jacobian: q.entropy() is not H(q_u)
 
 
@@ -130,6 +130,12 @@ def gen_hyper(rng, pair):
     if pair in ("bb", "bb_sig"):
         N = rng.randint(1, 12)
         h.update(ba=logu(0.6, 5), bb=logu(0.6, 5), N=N, k=rng.randint(0, N))
+    if pair == "cse":
+        # theta = exp(cumsum(z)) (the shipped CumSumExpTransform), independent LogNormal priors on theta with the
+        # transform's log-Jacobian in the joint, one Normal observation of each z_j: Gaussian in z, exactly
+        h.update(m=[rng.uniform(-1, 1), rng.uniform(-1, 1)], sp=[logu(0.4, 2), logu(0.4, 2)],
+                 sig=[logu(0.4, 2), logu(0.4, 2)], y=[round(rng.uniform(-2, 2), 3), round(rng.uniform(-2, 2), 3)],
+                 qparam=rng.choice(["covariance_matrix", "precision_matrix", "scale_tril"]))
     if pair in ("mvn", "mvn_full"):
         def spd():
             s1, s2, r = logu(0.4, 2), logu(0.4, 2), rng.uniform(-0.7, 0.7)
@@ -367,6 +373,46 @@ def build_spec(h, qclass, perturb):
             s.coq = (lambda z: f"{fn[0]} NumI {ab} {lB} {nk} {lC} (ofQ NumI {q(z[0])})",
                      lambda z: f"{fn[1]} NumI {ab} {lBp} {nk} (ofQ NumI {q(z[0])})",
                      f"bb_logml NumI {lB} {lBp} {lC}")
+    if pair == "cse":
+        m, sp, sig, y = h["m"], h["sp"], h["sig"], h["y"]
+        # c = L z with L = [[1,0],[1,1]];  prior: c_i ~ N(m_i, sp_i)  (LogNormal on theta_i = exp(c_i) times |d theta / d z|)
+        # precision of z:  L^T diag(1/sp^2) L + diag(1/sig^2);   linear term: L^T diag(1/sp^2) m + y / sig^2
+        w = [1.0 / (sp[0] ** 2), 1.0 / (sp[1] ** 2)]
+        Pz = [[w[0] + w[1] + 1.0 / sig[0] ** 2, w[1]], [w[1], w[1] + 1.0 / sig[1] ** 2]]
+        t = [w[0] * m[0] + w[1] * m[1] + y[0] / sig[0] ** 2, w[1] * m[1] + y[1] / sig[1] ** 2]
+        S1, _ = _inv2(Pz)
+        S1 = [[S1[0][0], (S1[0][1] + S1[1][0]) / 2], [(S1[0][1] + S1[1][0]) / 2, S1[1][1]]]
+        m1 = _mv2(S1, t)
+        qm = [m1[0] * f1 + (f1 - 1), m1[1] * f1]
+        qS = [[S1[i][j] * f2 for j in range(2)] for i in range(2)]
+        objs.append(TP("theta", "torchtree.distributions.transforms.CumSumExpTransform", P("z", [0.0, 0.0])))
+        s.latents.append("z")
+        jd += [D("like", "torch.distributions.Normal", P("data", y), {"loc": "z", "scale": sig}),
+               D("prior", "torch.distributions.LogNormal", "theta", {"loc": m, "scale": sp})]
+        qpar = h.get("qparam", "covariance_matrix")
+        if qpar == "precision_matrix":
+            qmat, _ = _inv2(qS)
+            qmat = [[qmat[0][0], (qmat[0][1] + qmat[1][0]) / 2], [(qmat[0][1] + qmat[1][0]) / 2, qmat[1][1]]]
+        elif qpar == "scale_tril":
+            l11 = math.sqrt(qS[0][0])
+            l21 = qS[1][0] / l11
+            qmat = [[l11, 0.0], [l21, math.sqrt(qS[1][1] - l21 * l21)]]
+        else:
+            qmat = qS
+        qd.append({"id": "q.z", "type": "MultivariateNormal", "x": "z",
+                   "parameters": {"loc": P("q.loc", qm), qpar: P("q.cov", qmat)}})
+        s.fire += ["q.loc"]
+
+        def lp_cse(lat, m=m, sp=sp, sig=sig, y=y):
+            c = [lat[0], lat[0] + lat[1]]
+            return (math.fsum(_normal_lpdf(lat[j], sig[j], y[j]) for j in range(2))
+                    + math.fsum(_normal_lpdf(m[j], sp[j], c[j]) for j in range(2)))
+        lp_terms.append((lp_cse, 2))
+        lq_terms.append((lambda lat: _mvn_lpdf(qm, qS, lat), 2))
+        # log marginal = log p(z) - log posterior(z) at any z (here z = 0), the posterior being N(m1, S1)
+        logml += lp_cse([0.0, 0.0]) - _mvn_lpdf(m1, S1, [0.0, 0.0])
+        _, det = _inv2(qS)
+        ent += 1 + 2 * HL2PI + 0.5 * math.log(det)
     if pair in ("mvn", "mvn_full"):
         m0, S0, S, x = h["m0"], h["S0"], h["S"], h["x"]
         S0i, _ = _inv2(S0)
@@ -413,6 +459,9 @@ def build_spec(h, qclass, perturb):
         var_id = "variational"
     elif pair in ("nn_aff", "lnn_exp"):
         objs.append(JDM("joint.jacobian", ["joint", "mu"]))
+        joint_id = "joint.jacobian"
+    elif pair == "cse":
+        objs.append(JDM("joint.jacobian", ["joint", "theta"]))
         joint_id = "joint.jacobian"
     if pair not in ("ge_exp", "bb_sig"):
         if qclass == "joint":
@@ -473,7 +522,7 @@ def gen_cases(rng, tier):
                         if qclass == "bare" and not tight and rng.random() < 0.5:
                             continue        # perturbed bare cases add little: thin them out
                         cases.append(mk(obj, par, shape, qclass, tight, pair))
-        for pair in ("ge_vec", "ge_list", "mvn"):
+        for pair in ("ge_vec", "ge_list", "mvn", "cse"):
             for obj, par in [("ELBO", None), ("ELBO-entropy", None), ("VR", 0.5), ("CUBO", 2.0), ("KLpq", None)]:
                 for shape in ([1], [2], [3], [1, 3], [3, 2]):
                     for qclass in ("joint", "bare"):
@@ -502,7 +551,7 @@ def case_key(c):
     pair, joint, shape = c["hyper"]["pair"], c["qclass"] == "joint", c["shape"]
     if pair == "mvn_full":
         return "C14:p=joint[MultivariateNormal-likelihood]"
-    if not joint and pair not in ("mvn", "mvn_full"):
+    if not joint and pair not in ("mvn", "mvn_full", "cse"):
         return f"C14:{c['obj']}:{'[S]' if len(shape) == 1 else '[S,K]'}:q=bare-Distribution"
     if pair == "mvn" and joint and c["obj"] == "ELBO-entropy" and len(shape) == 1:
         return "C14:ELBO-entropy:[S]:q=joint[MultivariateNormal]"
